@@ -33,7 +33,7 @@ pub struct Gen<'a> {
 impl<'a> Gen<'a> {
     pub fn emit(&mut self, line: String) -> String {
         self.ops += 1;
-        if !self.faults || line.starts_with("advance") {
+        if !self.faults || line.starts_with("advance") || line.starts_with("mint ") {
             return self.run.step(&line, self.o);
         }
         // fault enumeration: the same operation is attempted with the 1st, 2nd, … bank call failing,
@@ -218,13 +218,14 @@ impl<'a> Gen<'a> {
         let sender = pick_user(self.r);
         let n = pi.assets.len();
         let mut funds: Vec<Coin> = vec![];
-        let single = !empty && n == 2 && self.r.chance(1, 4);
+        // (single-asset deposits also into pools with three or four assets: to be refused, C14)
+        let single = !empty && ((n == 2 && self.r.chance(1, 4)) || (n > 2 && self.r.chance(1, 8)));
         if empty {
             let stable_pool = !matches!(pi.pool_type, mantra_dex_std::pool_manager::PoolType::ConstantProduct);
             // stableswap pools are seeded roughly balanced in value (same whole-token amount ±10 %)
             let whole_common = 1 + self.r.below(1_000_000) as u128;
             for (i, a) in pi.assets.iter().enumerate() {
-                let dec = pi.asset_decimals[i].min(18) as u32;
+                let dec = pi.asset_decimals.get(i).copied().unwrap_or(6).min(18) as u32;
                 let whole = if stable_pool && !self.r.chance(1, 12) { whole_common * (95 + self.r.below(11) as u128) / 100 + 1 } else { 1 + self.r.below(1_000_000) as u128 };
                 let amt = match self.r.below(if stable_pool { 12 } else { 6 }) { 0 => 1 + self.r.below(2000) as u128, 1 => if stable_pool { whole * 10u128.pow(dec) } else { rand_mag(self.r, 28) }, _ => whole * 10u128.pow(dec) / [1u128, 1, 10, 1000][self.r.below(if stable_pool { 2 } else { 4 }) as usize] + self.r.below(10) as u128 };
                 funds.push(coin(amt.max(1), a.denom.clone()));
@@ -237,7 +238,7 @@ impl<'a> Gen<'a> {
             }
             if self.r.chance(1, 15) { funds.pop(); }
         } else if single {
-            let i = self.r.below(2) as usize;
+            let i = self.r.below(n as u64) as usize;
             let a = pi.assets[i].amount.u128();
             funds.push(coin(gen_offer(self.r, a / 10).max(1), pi.assets[i].denom.clone()));
         } else {
@@ -388,7 +389,7 @@ impl<'a> Gen<'a> {
         let pools = self.pools();
         let live: Vec<_> = pools.iter().filter(|p| !p.total_share.amount.is_zero()).collect();
         if live.is_empty() { return self.op_provide(); }
-        let hops = 1 + self.r.below(3) as usize;
+        let hops = 1 + self.r.below(4) as usize;
         let first = live[self.r.below(live.len() as u64) as usize];
         let mut cur = first.pool_info.assets[self.r.below(first.pool_info.assets.len() as u64) as usize].denom.clone();
         let start_denom = cur.clone();
@@ -406,6 +407,23 @@ impl<'a> Gen<'a> {
         }
         if ops.is_empty() { return self.op_swap(); }
         if self.r.chance(1, 20) && ops.len() > 1 { ops[1].0 = "uom".into(); } // non-consecutive
+        // non-consecutive at ANY link (also the one into the third / fourth hop): (a) the hop is replaced by a well-formed hop of
+        // some live pool whose input is not what the previous hop delivers (every hop looks fine alone); (b) the declared
+        // input is a denom the hop's pool does not hold at all, while what the previous hop delivers is one of its assets
+        if ops.len() > 1 && self.r.chance(1, 10) {
+            let k = 1 + self.r.below(ops.len() as u64 - 1) as usize;
+            if self.r.chance(1, 2) {
+                let q = live[self.r.below(live.len() as u64) as usize];
+                let na = q.pool_info.assets.len();
+                let i = self.r.below(na as u64) as usize;
+                let j = (i + 1 + self.r.below(na as u64 - 1) as usize) % na;
+                ops[k] = (q.pool_info.assets[i].denom.clone(), q.pool_info.assets[j].denom.clone(), q.pool_info.pool_identifier.clone());
+                if self.r.chance(1, 2) { ops.truncate(k + 1); }
+            } else if let Some(pk) = live.iter().find(|p| p.pool_info.pool_identifier == ops[k].2) {
+                let foreign: Vec<&str> = BASE_DENOMS.iter().copied().filter(|d| !pk.pool_info.assets.iter().any(|a| a.denom == *d)).collect();
+                if !foreign.is_empty() { ops[k].0 = foreign[self.r.below(foreign.len() as u64) as usize].to_string(); }
+            }
+        }
         // a hop whose input and output denom coincide (the chain of denoms stays consecutive)
         if self.r.chance(1, 12) { let k = self.r.below(ops.len() as u64) as usize; let d = ops[k].0.clone(); ops[k].1 = d.clone(); for j in k + 1..ops.len() { if j == k + 1 { ops[j].0 = d.clone(); } } }
         let mut amt = offer_res / [100_000u128, 10_000, 1000, 200, 20][self.r.below(5) as usize] + 1;
@@ -469,6 +487,105 @@ impl<'a> Gen<'a> {
             return;
         }
         self.op_route()
+    }
+
+    /// directed scenario for C04 / C12 / C01: a consecutive route of three or four hops (pools may repeat), then the same route
+    /// with ONE link broken — every link in turn, also the one into the third and the fourth hop — in two ways: the hop is
+    /// replaced by a hop that is fine on its own (both denoms are assets of its pool) but does not take what the previous hop
+    /// delivers; or its declared input is a denom its pool does not hold at all.  All of them are to be refused, with the
+    /// simulation refusing them too; the intact route is run at the end.
+    pub fn op_scenario_broken_route_link(&mut self) {
+        let pools = self.pools();
+        let live: Vec<_> = pools.iter().filter(|p| !p.total_share.amount.is_zero()).collect();
+        if live.is_empty() { return self.op_provide(); }
+        let first = live[self.r.below(live.len() as u64) as usize];
+        let mut cur = first.pool_info.assets[self.r.below(first.pool_info.assets.len() as u64) as usize].denom.clone();
+        let start_denom = cur.clone();
+        let mut ops: Vec<(String, String, String)> = vec![];
+        let mut offer_res = 0u128;
+        let hops = 3 + self.r.below(2) as usize;
+        for k in 0..hops {
+            let fresh: Vec<_> = live.iter().filter(|p| p.pool_info.assets.iter().any(|a| a.denom == cur) && !ops.iter().any(|o| o.2 == p.pool_info.pool_identifier)).collect();
+            let any: Vec<_> = live.iter().filter(|p| p.pool_info.assets.iter().any(|a| a.denom == cur)).collect();
+            let cands = if fresh.is_empty() { any } else { fresh };
+            if cands.is_empty() { break; }
+            let p = cands[self.r.below(cands.len() as u64) as usize];
+            let outs: Vec<_> = p.pool_info.assets.iter().filter(|a| a.denom != cur).collect();
+            let out = outs[self.r.below(outs.len() as u64) as usize].denom.clone();
+            if k == 0 { offer_res = p.pool_info.assets.iter().find(|a| a.denom == cur).unwrap().amount.u128(); }
+            ops.push((cur.clone(), out.clone(), p.pool_info.pool_identifier.clone()));
+            cur = out;
+        }
+        if ops.len() < 3 { return self.op_route(); }
+        let amt = offer_res / 10_000 + 1;
+        let sender = pick_user(self.r);
+        let line = |ops: &Vec<(String, String, String)>| { let mut s = format!("{}", ops.len()); for (i, o_, p) in ops.iter() { s += &format!(" {} {} {}", i, o_, p); } s };
+        for k in 1..ops.len() {
+            // (a) a hop that is fine alone, fed with something else
+            let want = ops[k - 1].1.clone();
+            let mut alt: Option<(String, String, String)> = None;
+            for q in live.iter() {
+                let a = &q.pool_info.assets;
+                for i in 0..a.len() { for j in 0..a.len() { if i != j && a[i].denom != want && alt.is_none() && !a[i].amount.is_zero() { alt = Some((a[i].denom.clone(), a[j].denom.clone(), q.pool_info.pool_identifier.clone())); } } }
+            }
+            if let Some(h) = alt {
+                let mut broken = ops.clone(); broken[k] = h;
+                let mut sq = format!("{}", broken.len());
+                for (i, o_, p) in broken.iter() { sq += &format!(" {} {} {}", self.run.h.w.cd(i), self.run.h.w.cd(o_), p); }
+                self.q(format!("q simops {} {}", amt, sq));
+                self.emit(format!("tx {} {} pm route {} - - 500000000000000000", sender, funds_str(&[coin(amt, start_denom.clone())]), line(&broken)));
+            }
+            // (b) a declared input the hop's pool does not hold
+            if let Some(pk) = live.iter().find(|p| p.pool_info.pool_identifier == ops[k].2) {
+                if let Some(f) = BASE_DENOMS.iter().copied().find(|d| !pk.pool_info.assets.iter().any(|a| a.denom == *d)) {
+                    let mut broken = ops.clone(); broken[k].0 = f.to_string();
+                    let mut sq = format!("{}", broken.len());
+                    for (i, o_, p) in broken.iter() { sq += &format!(" {} {} {}", self.run.h.w.cd(i), self.run.h.w.cd(o_), p); }
+                    self.q(format!("q simops {} {}", amt, sq));
+                    self.emit(format!("tx {} {} pm route {} - - 500000000000000000", sender, funds_str(&[coin(amt, start_denom.clone())]), line(&broken)));
+                }
+            }
+        }
+        self.emit(format!("tx {} {} pm route {} - - 500000000000000000", sender, funds_str(&[coin(amt, start_denom)]), line(&ops)));
+    }
+
+    /// directed scenario for C17: swaps are switched off on pool A; then the owner pauses deposits on ANOTHER pool B and later
+    /// sends the "everything on" message for B (restating swaps = true, which B never lost); a direct swap on A, a route of
+    /// one hop through A and a longer route through A must all still be refused; re-enabling A restores them.
+    pub fn op_scenario_restated_toggle(&mut self) {
+        let pools = self.pools();
+        let live: Vec<_> = pools.iter().filter(|p| !p.total_share.amount.is_zero()).collect();
+        if live.len() < 2 { return self.op_provide(); }
+        let own = self.run.h.ownership("pm");
+        let owner = own.split('/').next().unwrap_or("owner").to_string();
+        let a = live[self.r.below(live.len() as u64) as usize];
+        let b = live.iter().find(|p| p.pool_info.pool_identifier != a.pool_info.pool_identifier).unwrap();
+        let (aid, bid) = (a.pool_info.pool_identifier.clone(), b.pool_info.pool_identifier.clone());
+        self.emit(format!("tx {} 0 pm config - - - - {} false - -", owner, aid));
+        self.emit(format!("tx {} 0 pm config - - - - {} - false -", owner, bid));
+        match self.r.below(3) {
+            0 => { self.emit(format!("tx {} 0 pm config - - - - {} true true true", owner, bid)); }
+            1 => { self.emit(format!("tx {} 0 pm config - - - - {} true - -", owner, bid)); self.emit(format!("tx {} 0 pm config - - - - {} true true -", owner, bid)); }
+            _ => { self.emit(format!("tx {} 0 pm config - - - - {} false - -", owner, bid)); self.emit(format!("tx {} 0 pm config - - - - {} true true true", owner, bid)); self.emit(format!("tx {} 0 pm config - - - - {} true - -", owner, bid)); }
+        }
+        let x = a.pool_info.assets[0].denom.clone();
+        let y = a.pool_info.assets[1].denom.clone();
+        let amt = a.pool_info.assets[0].amount.u128() / 10_000 + 1;
+        let sender = pick_user(self.r);
+        self.emit(format!("tx {} {} pm swap {} {} - 500000000000000000 -", sender, funds_str(&[coin(amt, x.clone())]), aid, y));
+        self.emit(format!("tx {} {} pm route 1 {} {} {} - - 500000000000000000", sender, funds_str(&[coin(amt, x.clone())]), x, y, aid));
+        // a second hop through any live pool holding y (B or A itself)
+        if let Some(q) = live.iter().find(|p| p.pool_info.pool_identifier != aid && p.pool_info.assets.iter().any(|c| c.denom == y)) {
+            let z = q.pool_info.assets.iter().find(|c| c.denom != y).unwrap().denom.clone();
+            self.emit(format!("tx {} {} pm route 2 {} {} {} {} {} {} - - 500000000000000000", sender, funds_str(&[coin(amt, x.clone())]), x, y, aid, y, z, q.pool_info.pool_identifier));
+        }
+        if let Some(q) = live.iter().find(|p| p.pool_info.pool_identifier != aid && p.pool_info.assets.iter().any(|c| c.denom == x)) {
+            let z = q.pool_info.assets.iter().find(|c| c.denom != x).unwrap();
+            let amt2 = z.amount.u128() / 10_000 + 1;
+            self.emit(format!("tx {} {} pm route 2 {} {} {} {} {} {} - - 500000000000000000", sender, funds_str(&[coin(amt2, z.denom.clone())]), z.denom, x, q.pool_info.pool_identifier, x, y, aid));
+        }
+        self.emit(format!("tx {} 0 pm config - - - - {} true - -", owner, aid));
+        self.emit(format!("tx {} {} pm route 1 {} {} {} - - 500000000000000000", sender, funds_str(&[coin(amt, x.clone())]), x, y, aid));
     }
 
     pub fn op_pm_config(&mut self) {
@@ -1127,6 +1244,124 @@ impl<'a> Gen<'a> {
         self.emit(format!("tx {} 0 fm withdrawpos u-ef{}x1 true", u, tag));
     }
 
+    /// directed scenario for C08: the bounds on unlocking durations are changed (validly) AFTER a position was opened — the
+    /// maximum lowered below its duration, or the minimum raised above it; the position is then closed and must unlock exactly its
+    /// OWN recorded duration after the close: a plain withdrawal at the new bound is refused, at the own duration it pays in full
+    pub fn op_scenario_bounds_changed_then_close(&mut self) {
+        let Some(lp) = self.some_lp() else { return self.op_provide() };
+        let holders = self.lp_holders(&lp);
+        let Some(u) = holders.first().copied() else { return self.op_provide() };
+        let bal = self.run.h.w.balance(u, &lp);
+        if bal < 10 { return self.op_provide(); }
+        let tag = self.r.below(10_000);
+        let own = self.run.h.ownership("fm");
+        let owner = own.split('/').next().unwrap_or("owner").to_string();
+        let lower_max = self.r.chance(2, 3);
+        let (dur, bound) = if lower_max { (DAY * (10 + self.r.below(300)), DAY * (1 + self.r.below(5))) } else { (DAY * (1 + self.r.below(3)), DAY * (5 + self.r.below(20))) };
+        self.emit(format!("tx {} 1 {} {} fm createpos bc{} {} -", u, lp, (bal / 10).max(1000.min(bal / 3)), tag, dur));
+        let mut f: Vec<String> = vec!["-".into(); 11];
+        if lower_max { f[8] = bound.to_string(); } else { f[7] = bound.to_string(); f[8] = (DAY * 365).to_string(); }
+        self.emit(format!("tx {} 0 fm config {}", owner, f.join(" ")));
+        let adv0 = (1 + self.r.below(3 * DAY)) * 1_000_000_000;
+        self.emit(format!("advance {}", adv0));
+        let id = format!("u-bc{}", tag);
+        if self.r.chance(1, 3) {
+            // a partial close first (the part split off carries the same duration)
+            self.emit(format!("tx {} 0 fm closepos {} {} {}", u, id, lp, ((bal / 10).max(1000.min(bal / 3)) / 3).max(1)));
+        }
+        self.emit(format!("tx {} 0 fm closepos {} - -", u, id));
+        let first = dur.min(bound);
+        let adv1 = first * 1_000_000_000 + self.r.below(2_000_000_000);
+        self.emit(format!("advance {}", adv1));
+        self.emit(format!("tx {} 0 fm withdrawpos {} false", u, id));
+        if dur > first {
+            self.emit(format!("advance {}", (dur - first) * 1_000_000_000));
+            self.emit(format!("tx {} 0 fm withdrawpos {} false", u, id));
+        }
+    }
+
+    /// directed scenario for C09: the farm manager's fee collector is an account that ALSO owns an active farm on the LP token
+    /// (alone, or next to another owner); a locked position is then left by emergency exit: the whole penalty must still be
+    /// paid out — the collector's half and every active owner's share, whoever they are
+    pub fn op_scenario_collector_owns_farm(&mut self) {
+        let Some(lp) = self.some_lp() else { return self.op_provide() };
+        let cur = self.cur_epoch();
+        let own = self.run.h.ownership("fm");
+        let owner = own.split('/').next().unwrap_or("owner").to_string();
+        let tag = self.r.below(1000);
+        let cfg: mantra_dex_std::farm_manager::Config = self.run.h.w.app.wrap()
+            .query_wasm_smart(self.run.h.w.a("fm"), &mantra_dex_std::farm_manager::QueryMsg::Config {}).unwrap();
+        if cfg.max_concurrent_farms < 2 { self.emit(format!("tx {} 0 fm config - - - - - 3 - - - - -", owner)); }
+        let coll = ["u1", "u3"][self.r.below(2) as usize];
+        let creators: Vec<&str> = if self.r.chance(1, 2) { vec![coll] } else { vec![coll, if coll == "u1" { "u3" } else { "u1" }] };
+        for (k, c) in creators.iter().enumerate() {
+            let aa = 20_000 + self.r.below(1_000_000) as u128;
+            let asset = coin(aa, "uusdc");
+            let funds = self.farm_fee_funds(&asset);
+            self.emit(format!("tx {} {} fm createfarm {} {} {} uusdc {} co{}x{}", c, funds_str(&funds), lp, cur + 1, cur + 12, aa, tag, k));
+        }
+        let mut f: Vec<String> = vec!["-".into(); 11];
+        f[0] = coll.to_string();
+        // (a configuration without penalty would make the exit free: give it one)
+        if cfg.emergency_unlock_penalty.is_zero() { f[10] = ["100000000000000000", "20000000000000000", "500000000000000000"][self.r.below(3) as usize].into(); }
+        self.emit(format!("tx {} 0 fm config {}", owner, f.join(" ")));
+        let holders = self.lp_holders(&lp);
+        let Some(u) = holders.iter().copied().find(|h| *h != coll) else { return };
+        let bal = self.run.h.w.balance(u, &lp);
+        if bal < 10 { return; }
+        // an amount whose penalty halves and shares do not divide evenly, now and then
+        // (an emergency exit of 3.4·10^20 units or more panics in `Decimal::from_ratio` — recorded in DESIGN §7, outside the property)
+        let amt = ((bal / 10).max(1000.min(bal / 3)) | 1).min(100_000_000_000_000_000_000 + self.r.below(1000) as u128);
+        let dur = DAY * (30 + self.r.below(300));
+        self.emit(format!("tx {} 1 {} {} fm createpos cf{} {} -", u, lp, amt, tag, dur));
+        let adv3 = (1 + self.r.below(2)) * DAY * 1_000_000_000;
+        self.emit(format!("advance {}", adv3));
+        if self.r.chance(1, 2) { self.emit(format!("tx {} 0 fm closepos u-cf{} - -", u, tag)); self.emit(format!("advance {}", DAY * 1_000_000_000)); }
+        self.emit(format!("tx {} 0 fm withdrawpos u-cf{} true", u, tag));
+        // the collector goes back to the fee-collector contract
+        let mut f: Vec<String> = vec!["-".into(); 11];
+        f[0] = "fc".into();
+        if self.r.chance(1, 2) { self.emit(format!("tx {} 0 fm config {}", owner, f.join(" "))); }
+    }
+
+    /// directed scenario for C10 / C08: a user's position is closed in full; a locked deposit through the pool manager then
+    /// names that CLOSED position as the one to top up (also the closed part of a partial close): the lock must be refused just
+    /// as a direct Expand is — otherwise the user would carry weight without an open position
+    pub fn op_scenario_refill_closed_via_pm(&mut self) {
+        let pools = self.pools();
+        let Some(p) = pools.iter().find(|p| !p.total_share.amount.is_zero() && p.pool_info.assets.len() == 2) else { return self.op_provide() };
+        let pi = p.pool_info.clone();
+        let tag = self.r.below(10_000);
+        let u = pick_user(self.r);
+        let mut funds: Vec<Coin> = pi.assets.iter().map(|a| coin((a.amount.u128() / 1000).max(1000), a.denom.clone())).collect();
+        funds.sort_by(|x, y| x.denom.cmp(&y.denom));
+        let dur = DAY * (1 + self.r.below(30));
+        // a locked deposit creating the position, under an identifier of the user's choosing
+        self.emit(format!("tx {} {} pm provide {} - - - {} rf{}", u, funds_str(&funds), pi.pool_identifier, dur, tag));
+        let id = format!("u-rf{}", tag);
+        let partial = self.r.chance(1, 3);
+        let lp = self.run.h.w.cd(&pi.lp_denom);
+        if partial {
+            let amt = self.positions().iter().find(|q| q.identifier == id).map(|q| q.lp_asset.amount.u128()).unwrap_or(0);
+            if amt >= 2 { self.emit(format!("tx {} 0 fm closepos {} {} {}", u, id, lp, amt / 2)); }
+        } else {
+            self.emit(format!("tx {} 0 fm closepos {} - -", u, id));
+        }
+        let adv2 = (1 + self.r.below(2 * DAY)) * 1_000_000_000;
+        self.emit(format!("advance {}", adv2));
+        // every closed position of the user in that LP token is named once
+        let real = self.run.h.w.rd(&lp);
+        let closed: Vec<String> = self.positions().iter().filter(|q| !q.open && q.lp_asset.denom == real && self.run.h.w.n(q.receiver.as_str()) == u).map(|q| q.identifier.clone()).collect();
+        for cid in closed.iter().take(2) {
+            self.emit(format!("tx {} {} pm provide {} - - - {} {}", u, funds_str(&funds), pi.pool_identifier, dur, cid));
+            // and directly
+            let have = self.run.h.w.balance(u, &lp);
+            if have > 0 { self.emit(format!("tx {} 1 {} {} fm expandpos {}", u, lp, (have / 2).max(1), cid)); }
+        }
+        self.emit(format!("advance {}", DAY * 1_000_000_000));
+        self.emit(format!("tx {} 0 fm claim -", u));
+    }
+
     /// directed scenario for C10 / C08: one user is given MORE than ten open positions through locked deposits of the pool
     /// manager, across two LP tokens (the limit of open positions per receiver must hold on that path too); then positions are
     /// closed — a user with an open position in an LP token keeps a weight history for it
@@ -1160,6 +1395,50 @@ impl<'a> Gen<'a> {
         self.emit(format!("tx {} 0 fm closepos u-a{}x0 - -", user, tag));
         self.emit(format!("advance {}", DAY * 1_000_000_000));
         self.emit(format!("tx {} 0 fm closepos u-b{}x1 - -", user, tag));
+    }
+
+    /// directed scenario for C06 / C10: amounts near the top of u128.  The chain mints one account a huge balance; it funds a
+    /// pool of its own, hands a third of the LP tokens to a second account, and both lock about 1.4·10^37 LP for the longest
+    /// duration (weight 16x): the second lock would push the total weight beyond u128 — it must be REFUSED (a total capped at
+    /// u128 would be smaller than the users' weights and every epoch would pay out more than it emits); a third, small lock
+    /// and the claims of the following epochs must work as usual
+    pub fn op_scenario_whale_weights(&mut self) {
+        let tag = self.r.below(1000);
+        let big: u128 = u128::MAX / 8;
+        self.emit(format!("mint u4 {}", funds_str(&{ let mut v = vec![coin(big, "uom"), coin(big, "uusdc")]; v.sort_by(|a, b| a.denom.cmp(&b.denom)); v })));
+        let cf = self.creation_funds();
+        self.emit(format!("tx u4 {} pm create cp 0 2 uom 6 uusdc 6 0 0 0 - wh{}", funds_str(&cf), tag));
+        let mut d = vec![coin(big, "uom"), coin(big, "uusdc")]; d.sort_by(|x, y| x.denom.cmp(&y.denom));
+        self.emit(format!("tx u4 {} pm provide o.wh{} - - - - -", funds_str(&d), tag));
+        let lp = format!("factory/pm/o.wh{}.LP", tag);
+        let have = self.run.h.w.balance("u4", &lp);
+        if have < 1_000_000 { return; }
+        let third = have / 3;
+        self.emit(format!("send u4 u1 1 {} {}", lp, third));
+        let small = 1_000_000 + self.r.below(1_000_000);
+        self.emit(format!("send u4 u3 1 {} {}", lp, small));
+        let cfg: mantra_dex_std::farm_manager::Config = self.run.h.w.app.wrap()
+            .query_wasm_smart(self.run.h.w.a("fm"), &mantra_dex_std::farm_manager::QueryMsg::Config {}).unwrap();
+        let dur = cfg.max_unlocking_duration;
+        // a farm on that LP token, paying from the next epoch on
+        let cur = self.cur_epoch();
+        let aa = 10_000 + self.r.below(1_000_000) as u128;
+        let asset = coin(aa, "uusdt");
+        let funds = self.farm_fee_funds(&asset);
+        self.emit(format!("tx u2 {} fm createfarm {} {} {} uusdt {} whf{}", funds_str(&funds), lp, cur + 1, cur + 6, aa, tag));
+        self.emit(format!("tx u4 1 {} {} fm createpos wa{} {} -", lp, third, tag, dur));
+        self.emit(format!("tx u1 1 {} {} fm createpos wb{} {} -", lp, third, tag, dur));
+        // (if that was refused: a lock that still fits)
+        self.emit(format!("tx u1 1 {} {} fm createpos wc{} {} -", lp, third / 1000, tag, DAY));
+        self.emit(format!("tx u3 1 {} {} fm createpos wd{} {} -", lp, 1_000_000, tag, dur));
+        // topping the first position up beyond the limit
+        self.emit(format!("tx u4 1 {} {} fm expandpos u-wa{}", lp, third / 2, tag));
+        for _ in 0..3 {
+            self.emit(format!("advance {}", DAY * 1_000_000_000));
+            for u in ["u4", "u1", "u3"] { self.emit(format!("tx {} 0 fm claim -", u)); }
+        }
+        self.emit(format!("tx u4 0 fm closepos u-wa{} - -", tag));
+        self.emit(format!("tx u1 0 fm claim -"));
     }
 
     /// directed scenario for C20: the epoch manager stops answering (its owner moves the genesis into the future); an expired or
@@ -1445,6 +1724,9 @@ impl<'a> Gen<'a> {
                 2 => { f[7] = (DAY * 2).to_string(); f[8] = DAY.to_string(); }             // both, inverted
                 _ => { f[7] = (DAY * (1 + self.r.below(3))).to_string(); }
             },
+            // a VALID change of the bounds while positions exist: the maximum lowered (below the duration of positions opened
+            // earlier), or the minimum raised above them — the positions keep their own recorded duration
+            7 if self.r.chance(1, 2) => { if self.r.chance(2, 3) { f[8] = (DAY * (1 + self.r.below(60))).to_string(); } else { f[7] = (DAY * (2 + self.r.below(20))).to_string(); f[8] = (DAY * 365).to_string(); } }
             6 => { f[9] = (2_629_746 + self.r.below(10) - 5).to_string(); }
             _ => { f[6] = self.r.below(30).to_string(); }
         }
@@ -1490,8 +1772,8 @@ pub fn gen_pm_case(r: &mut Rng, id: u64, len: u64, faults: bool, o: &mut Out) {
         // everybody leaves a constant-product pool and somebody deposits again
         for _ in 0..2 { g.op_create_pool(); }
         for _ in 0..6 { g.op_provide(); }
-        match (id / 3) % 5 { 0 => g.op_scenario_disabled_route(), 1 => g.op_scenario_full_exit_redeposit(), 2 => g.op_scenario_twin_pools_cycle(), 3 => g.op_scenario_waived_creation_fee(),
-            _ => g.op_scenario_disabled_withdraw_sibling() }
+        match (id / 3) % 7 { 0 => g.op_scenario_disabled_route(), 1 => g.op_scenario_full_exit_redeposit(), 2 => g.op_scenario_twin_pools_cycle(), 3 => g.op_scenario_waived_creation_fee(),
+            4 => g.op_scenario_disabled_withdraw_sibling(), 5 => g.op_scenario_broken_route_link(), _ => g.op_scenario_restated_toggle() }
     }
     while g.ops < len {
         match g.r.below(40) {
@@ -1500,7 +1782,7 @@ pub fn gen_pm_case(r: &mut Rng, id: u64, len: u64, faults: bool, o: &mut Out) {
             10..=19 => g.op_swap(),
             20..=23 => g.op_withdraw(),
             24..=27 => g.op_route(),
-            28 => if g.r.chance(1, 2) { g.op_scenario_disabled_route() } else { g.op_route() },
+            28 => match g.r.below(4) { 0 => g.op_scenario_disabled_route(), 1 => g.op_scenario_broken_route_link(), 2 => g.op_scenario_restated_toggle(), _ => g.op_route() },
             29 | 30 => g.op_pm_config(),
             31 => g.op_own("pm"),
             32 => g.op_donate(),
@@ -1531,7 +1813,11 @@ pub fn gen_fm_case(r: &mut Rng, id: u64, len: u64, faults: bool, o: &mut Out) {
     for _ in 0..6 { g.op_provide(); }
     // every second case starts with one directed scenario, in rotation, whatever the seed
     if let Some(k) = scen {
-        match k % 16 {
+        match k % 20 {
+            19 => g.op_scenario_whale_weights(),
+            18 => g.op_scenario_refill_closed_via_pm(),
+            17 => g.op_scenario_collector_owns_farm(),
+            16 => g.op_scenario_bounds_changed_then_close(),
             15 => g.op_scenario_many_positions_on_behalf(),
             14 => g.op_scenario_emergency_fractional_time(),
             13 => g.op_scenario_long_thin_farm(),
@@ -1606,7 +1892,9 @@ pub fn run(kind: &str, seed: u64, cases: u64, replay: Option<&str>, o: &mut Out)
 /// `auth` stream (C15): the complete matrix ownership state × contract × privileged variant ×
 /// sender role × with/without funds, each on a fresh deployment.
 pub fn run_auth(o: &mut Out) {
-    let scenarios = ["initial", "pending", "pending_expired", "transferred", "renounced"];
+    // (`pending_withdrawn`: the owner proposed u1, then withdrew the proposal the only way cw-ownable offers — by proposing
+    //  itself; `pending_replaced`: proposed u1, then u2 instead.  In both u1 is no longer the proposed account.)
+    let scenarios = ["initial", "pending", "pending_expired", "transferred", "renounced", "pending_withdrawn", "pending_replaced"];
     let contracts = ["pm", "fm", "em", "fc"];
     let senders = ["owner", "u1", "u2", "pm", "fm", "out"];
     let mut id = 0u64;
@@ -1636,6 +1924,14 @@ pub fn run_auth(o: &mut Out) {
                                 run.step(&format!("tx u1 0 {} own accept", c), o);
                             }
                             "renounced" => { run.step(&format!("tx owner 0 {} own renounce", c), o); }
+                            "pending_withdrawn" => {
+                                run.step(&format!("tx owner 0 {} own transfer u1 -", c), o);
+                                run.step(&format!("tx owner 0 {} own transfer owner -", c), o);
+                            }
+                            "pending_replaced" => {
+                                run.step(&format!("tx owner 0 {} own transfer u1 -", c), o);
+                                run.step(&format!("tx owner 0 {} own transfer u2 -", c), o);
+                            }
                             _ => {}
                         }
                         let funds = if with_funds { "1 uom 1" } else { "0" };
@@ -1657,6 +1953,8 @@ pub fn run_auth(o: &mut Out) {
                             "pending" => (Some("owner"), Some("u1"), false),
                             "pending_expired" => (Some("owner"), Some("u1"), true),
                             "transferred" => (Some("u1"), None, false),
+                            "pending_withdrawn" => (Some("owner"), Some("owner"), false),
+                            "pending_replaced" => (Some("owner"), Some("u2"), false),
                             _ => (None, None, false),
                         };
                         let v = if *v == "config_empty" { "config" } else { *v };
